@@ -21,7 +21,16 @@ pub fn exec(rec: &Value, _st: &mut State) -> Value {
             let sc = (2.0f64).powi(gi_or(rec, "sc", 0) as i32);
             // optional `split` [vertices, faces]: the mesh is assembled in two steps - the first part is built and QUERIED
             // (patches, edge table), then the rest is appended to the same object - and observed after that
+            // optional `vpad`: that many unused vertices are put in front of the described ones (all face indices shifted), so that
+            // meshes with vertex indices beyond 65535 stay small records; reported vertex ids are shifted back
+            let vpad = gi_or(rec, "vpad", 0) as usize;
             let mesh = match rec.get("split").and_then(|v| v.as_array()) {
+                None if vpad > 0 => {
+                    let mut verts: Vec<Point3> = (0..vpad).map(|k| Point3::new(-1.0 - k as f64, -5.0, -5.0)).collect();
+                    verts.extend(gvvi(rec, "vpos").iter().map(|p| Point3::new(p[0] as f64 * sc, p[1] as f64 * sc, p[2] as f64 * sc)));
+                    let faces: Vec<[u32; 3]> = gvvi(rec, "faces").iter().map(|f| [(f[0] as usize + vpad) as u32, (f[1] as usize + vpad) as u32, (f[2] as usize + vpad) as u32]).collect();
+                    Mesh::new(verts, faces, false)
+                }
                 None => mesh_from(rec),
                 Some(sp) => {
                     let (nv, nf) = (sp[0].as_u64().unwrap() as usize, sp[1].as_u64().unwrap() as usize);
@@ -44,10 +53,13 @@ pub fn exec(rec: &Value, _st: &mut State) -> Value {
             for k in 0..reps {
                 match mesh.calc_edges() {
                     Ok(e) => {
+                        let unpad = |v: u32| -> i64 { v as i64 - vpad as i64 };
                         if k == 0 {
-                            first = json!({"edges": e.edges, "elen": q.qv(&e.edge_lengths, 1024.0 / sc), "face_edges": e.face_edges});
+                            let ed: Vec<Vec<i64>> = e.edges.iter().map(|p| vec![unpad(p[0]), unpad(p[1])]).collect();
+                            first = json!({"edges": ed, "elen": q.qv(&e.edge_lengths, 1024.0 / sc), "face_edges": e.face_edges});
                         }
-                        loops_reps.push(json!(e.boundary_loops));
+                        let lp: Vec<Vec<i64>> = e.boundary_loops.iter().map(|l| l.iter().map(|v| unpad(*v)).collect()).collect();
+                        loops_reps.push(json!(lp));
                     }
                     Err(_) => { edges_ok = false; }
                 }
